@@ -749,24 +749,27 @@ def backup_numeric_order(fx):
 
 
 def helpers_always_apply(fx):
-    """C10/C18/C11: each attribute helper performs its primitive on every path that returns Ok."""
-    from p_thread import ok_blocks
+    """C10/C18/C11: each attribute helper performs its primitive on every path that does not fail (evaluated on
+    the helper's inlined view; "does not fail" = reaches the return without passing a block that returns Err)."""
+    import views, r_err
     obs = []
     table = [("libfs::common::copy_permissions", SET_PERMISSIONS), ("libfs::common::copy_timestamps", SET_TIMES),
              ("libfs::common::copy_owner", FCHOWN), ("libfs::common::sync", FSYNC),
              ("libfs::common::allocate_file", FTRUNCATE)]
     for fn_, prim in table:
-        f = fx.fn(fn_)
+        f = views.view(fx, fn_, depth=4) if fx.fn(fn_) is not None else None
         if f is None:
             obs.append(anchor_ob("R-ORDER", fn_))
             continue
         cfg = cfg_of(f)
         perf = [b for b, t, h in ro.performers(fx, f, prim)]
-        oks = ok_blocks(f)
-        ok = bool(perf) and bool(oks) and cfg.passes_through(perf, 0, oks)
+        sig = r_err.signal_blocks(f)
+        r = cfg.reach([0], blocked=set(perf) | set(sig))
+        leak = [b for b in cfg.returns if b in r]
+        ok = bool(perf) and not leak
         obs.append(Ob("R-ORDER", mkkey("R-ORDER", fn_, prim, 0, "ok-requires"), ok, f.loc(), fn_,
                       "%s returns Ok only after %s: %s" % (fn_.split("::")[-1], prim.split("::")[-1], ok),
-                      None if ok else dict(performers=perf, ok_blocks=oks)))
+                      None if ok else dict(performers=perf, returns_reached=leak)))
     return obs
 
 
